@@ -35,6 +35,13 @@ CONTEXTS = {
     'having': 'SELECT z FROM t GROUP BY z HAVING {e}',
     'funcarg': 'SELECT f({e}, z) FROM t',
     'case': 'SELECT CASE WHEN {e} THEN 1 ELSE {e} END FROM t',
+    # the same expression grammar reached from other statements (other LR states: a SHOW has LIKE / IN / FROM clauses of its own)
+    'show-where': 'SHOW TABLES WHERE {e}',
+    'update-where': 'UPDATE t SET z = 1 WHERE {e}',
+    'update-set': 'UPDATE t SET z = {e}',
+    'delete-where': 'DELETE FROM t WHERE {e}',
+    'order-by': 'SELECT z FROM t ORDER BY {e}',
+    'insert-values': 'INSERT INTO t (z) VALUES ({e})',
 }
 LEAVES = ['a', 'b', 'c', 'd', 'e', 'a', 'b', 'c']
 
@@ -124,6 +131,14 @@ def find_expr(ast, ctx):
     if ctx == 'case':
         c = ast.targets[0]
         return [c.rules[0][0], c.default]
+    if ctx in ('show-where', 'update-where', 'delete-where'):
+        return [ast.where]
+    if ctx == 'update-set':
+        return [ast.update_columns['z']]
+    if ctx == 'order-by':
+        return [ast.order_by[0].field]
+    if ctx == 'insert-values':
+        return [ast.values[0][0]]
     raise ValueError(ctx)
 
 
